@@ -22,11 +22,12 @@ def build(c):
     bc = "".join(dims[a] if dims else (["x", "y", "z"][a] if nd <= 3 else f"x{a}") for a in c["periodic_axes"])
     region = df.Region(p1=p1, p2=p2, dims=dims)
     mesh = df.Mesh(region=region, n=sh, bc=bc)
-    arr = np.array([float(F(x)) for x in c["vals"]], dtype=float).reshape(*sh, c["nvdim"])
+    dt = int if c.get("int_dtype") else float
+    arr = np.array([float(F(x)) for x in c["vals"]], dtype=dt).reshape(*sh, c["nvdim"])
     valid = np.array(c["valid"], dtype=bool).reshape(*sh)
     vd = c.get("vdims")
     f = df.Field(mesh, nvdim=c["nvdim"], value=arr, valid=valid, unit=c.get("unit"), vdims=vd,
-                 vdim_mapping=c.get("vmap"))
+                 vdim_mapping=c.get("vmap"), dtype=(int if c.get("int_dtype") else None))
     return f
 
 
@@ -47,9 +48,11 @@ def line_case(L, mask, order, periodic, rng, restrict=True, poly=None):
         vals = [F(rng.randint(-20, 20)) for _ in range(L)]
     else:
         vals = [poly_eval(poly, x0 + (j + F(1, 2)) * h) for j in range(L)]
+    # integer-typed fields (integer data): the derivative must not be truncated to the operand's dtype
+    int_dtype = poly is None and rng.random() < 0.25
     return dict(kind="line", sh=[L], nvdim=1, ax=0, order=order, cell=[g.qs(h)], p1=[g.qs(x0)],
                 periodic_axes=[0] if periodic else [], restrict=restrict,
-                vals=[g.qs(v) for v in vals], valid=[bool(b) for b in mask], poly=poly)
+                vals=[g.qs(v) for v in vals], valid=[bool(b) for b in mask], poly=poly, int_dtype=int_dtype)
 
 
 def nd_case(rng, tier):
